@@ -840,8 +840,17 @@ def tolerant_reader(A: Analysis, col: Collector, rule: str):
             col.fail(rule, fn.qualname, "reader-unbounded-retry", "the retry around unpickling is not a bounded loop", A.loc(c))
         else:
             col.ok(rule, "load_result: cp.load is inside `except (UnpicklingError, EOFError)` inside a bounded `for _ in range(retries)`", A.loc(c))
-    # what is returned: only the unpickled object or None
+    # the tolerated errors must not leave load_result at all (e.g. re-raised on the last retry)
     cfg = A.cfg(fn)
+    for c in loads:
+        for node in cfg.nodes_containing(c):
+            esc = explore(cfg, [(node, None)], lambda m, _n=node: {"UnpicklingError", "EOFError"} if m is _n else (A.rm.node_tokens(m, fn) & {"<none>"}) | ({"UnpicklingError", "EOFError"} if m.kind == "raise" and m.stmt.exc is None else set()))
+            out = [e for e in esc if e.exit_kind == "raise" and e.token in ("UnpicklingError", "EOFError")]
+            if out:
+                col.fail(rule, fn.qualname, "reader-error-escapes", "an UnpicklingError/EOFError raised while reading a partially written result can leave load_result (re-raised by the handler): a submission that finds a truncated result file of a crashed run fails instead of re-executing the job", A.loc(c), witness=format_path(out[0].path))
+            else:
+                col.ok(rule, "load_result: UnpicklingError/EOFError from a partial result file never leave the function", A.loc(c))
+    # what is returned: only the unpickled object or None
     for n in walk_own(fn.node):
         if isinstance(n, ast.Return) and n.value is not None:
             v = n.value
